@@ -4,26 +4,46 @@
    src/inline_internal.h, src/init.c, and the internal references of the GROUP protocol (src/semaphore.c) woven in:
    +1 while the group is non-empty, +1 while the notify list is non-empty (released once per wake batch),
    +1 on the target queue of every pending notification.  Every reference is a ghost token: in a pool between
-   calls (XPOOL: the application's references, IPOOL: other internal holders, EPOOL: outstanding enters) or held by
-   a call in progress (priv k = sum over all threads of `held k`); a call releases only a token it took.  The
-   client is the most general one respecting this discipline; any number of threads, any interleaving, spurious
-   weak-CAS failures included.  Generated pieces (Gen_refcnt, Gen_group): rmw-loop bodies of
-   _os_object_retain_weak and _dispatch_group_notify, memory orders, constants, atomic-site lists.
+   calls (XPOOL: the application's references, IPOOL: other internal holders, EPOOL: outstanding enters) or OWNED by
+   a call in progress (a release in flight, a reference just created; priv k = sum over all threads of `held k`).
+   USING the object only BORROWS: any number of threads may be inside calls through the same reference at the same
+   time (priv KBX / KBI count the calls in progress that borrow an external / internal reference).
 
-   Scope.  Proved here for the object/group instance: all clauses of the property.  The rest of dg_state
-   (generation, HAS_WAITERS) is C07's subject and kept abstract: a step is admitted only when the branch taken on the
-   concrete word agrees with (value, HAS_NOTIFS).  PARTIAL (..._partial below): the lane's +2 protocol
-   (push / wakeup / invoke / invoke_finish, suspend / resume), the timer's +2 while armed, sources, queue-specific and
-   data destructors and I/O channels are not covered by a global invariant; they are covered by the site-order tie
-   on _dispatch_lane_push (retain_2 between the tail exchange and the publication of the item) and by the white-box
-   differential harness (counts at quiescent points, finalizer / destructor counts, queue and context observed). *)
+   CLIENT CONTRACT (what `reach` quantifies over; everything else is the most general client, any number of threads,
+   any interleaving, spurious weak-CAS failures included):
+   (1) reference discipline (Refcnt.call_guard): a call uses the object through a reference that exists; a release takes
+       the reference it releases out of the pool; while calls in progress borrow a reference of a level, the owners
+       of that level do not release the last reference of that level; a leave consumes an enter that has returned;
+   (2) bounds (Refcnt.contract_r, checked on every step of a run): fewer than 2^31-2 references of each level and
+       fewer than 2^30-1 outstanding enters (beyond them the model does what C does: the counter wraps / the
+       "Too many nested calls" crash is taken);
+   (3) the one fact used about the part of dg_state kept abstract here (generation, HAS_WAITERS: C07's subject): when
+       the group is disposed, the low word of dg_state is non-zero only if the value or HAS_NOTIFS are (HAS_WAITERS
+       is not left set on an empty group); otherwise the "deallocated while in use" crash is taken in the model too.
+   Generated pieces (Gen_refcnt, Gen_group): rmw-loop bodies of _os_object_retain_weak and _dispatch_group_notify,
+   memory orders, constants, atomic-site lists.
+
+   Scope.  Proved here: the object/group instance (all clauses below; "finalizer runs" = its submission to the
+   target queue, its execution is C01's subject) and, in Properties_C17_lane.v, the +2 protocol of a serial lane
+   over Model/SLane.v.  NOT covered by a theorem (differential harness only, see lib/props/c17.py): suspend +2,
+   initially-inactive +2, references of child queues / sources on their target, timer +2 while armed, DSF_DELETED
+   reference of sources, queue-specific and data destructors, semaphores, data objects, I/O channels, global
+   (immortal) objects, _os_object_retain_with_resurrect. *)
 From Coq Require Import ZArith Bool List.
-From Verif Require Import Word Conc Gen_consts Gen_fields Gen_group Gen_refcnt Gen_lanesites Refcnt RefcntSites Refcnt_proofs.
+From Verif Require Import Word Conc Gen_consts Gen_fields Gen_group Gen_refcnt Gen_lanesites Refcnt RefcntSites
+  Refcnt_inv_proofs Refcnt_proofs.
 Import ListNotations.
 Local Open Scope Z_scope.
 
+(* the contract, restated so that it is visible here: `reach` = states reachable by steps each of which satisfies it *)
+Theorem C17_contract_is : forall s t e, contractb s t e = true <->
+  (regs s XREF + 1 < 2147483647 /\ regs s IREF + 2 < 2147483647 /\ regs s GVAL < 1073741823 /\
+   (forall c, pcs s t = PDispose c -> nz (u32 (ea e)) = true -> 0 < regs s GVAL \/ regs s GNOT = 1)).
+Proof. exact contract_is. Qed.
+Print Assumptions C17_contract_is.
+
 (* counters never fall below -1 and no crash path (over-release, resurrection, "deallocated while in use",
-   unbalanced leave) is reachable for a client that respects the token discipline *)
+   unbalanced leave, too many nested enters) is taken by a client within the contract *)
 Theorem C17_counters_never_below_minus1 : forall s, reach s ->
   -1 <= regs s XREF /\ -1 <= regs s IREF /\ regs s CRASH = 0 /\ forall t, pcs s t <> PCrash.
 Proof. exact counters_never_below_minus1. Qed.
@@ -113,13 +133,10 @@ Theorem C17_model_uses_thread_automaton : forall s t e s',
 Proof. exact gstep_tstep. Qed.
 Print Assumptions C17_model_uses_thread_automaton.
 
-(* PARTIAL (lane +2 protocol): only the order of the atomic sites of the push is tied here — the queue is retained (+2,
-   both branches) after the tail exchange and BEFORE the store that publishes the item (prev->do_next / head), as the
-   comment at queue.c:5040 (rdar 6932776) requires; which of wakeup / invoke / invoke_finish consumes the +2, the
-   suspend +2 and the timer's +2 are checked by the differential harness only.
-   Full statement intended: for every reachable state of the lane protocol,
-     ref + 1 = [xref alive] + 2*[enqueued or a wakeup / invoke frame in flight] + 2*[suspended with a pending wakeup]
-               + 2*[timer armed] + children targeting it + references held by calls in progress. *)
+(* Lane +2 protocol: the accounting invariant is Properties_C17_lane.v (ghost counter over Model/SLane.v).  What ties its
+   ghost update to the source here is the ORDER of the atomic sites of the push — the queue is retained (+2, both
+   branches) after the tail exchange and BEFORE the store that publishes the item (prev->do_next / head), as the comment
+   at queue.c:5040 (rdar 6932776) requires.  _partial: a site-order fact, not a protocol theorem. *)
 Definition last6 (l : list site) : list site := skipn (length l - 6) l.
 Theorem C17_lane_push_retains_before_publish_partial :
   last6 f_dispatch_lane_push_sites =
@@ -167,33 +184,83 @@ Definition demo_schedule : list (Z * event) := match sched_of init_state demo_ca
 Definition snap (s : gst) : list Z :=
   let r := regs s in
   [r XREF; r IREF; r NLEN; r GVAL; r DISP; r XALIVE; r IPOOL; r NFIN; r FINCTX; r FINQ; r FREED; r CRASH; r QRET - r QREL].
+(* a schedule in which two threads are inside calls through the SAME (only) external reference at the same time:
+   thread 1 enters dispatch_group_enter; before it has done anything thread 2 performs a whole dispatch_group_notify_f
+   (non-empty list: it owes and takes the list's +1); then thread 3 starts a dispatch_retain; then thread 1 finishes *)
+Definition shared_schedule : list (Z * event) :=
+  let e1 := first_event init_state (1, OP_ENTER, 0, 0) in
+  match gstep init_state 1 (snd e1) with
+  | None => []
+  | Some s1 =>
+      let e2 := first_event s1 (2, OP_NOTIFY, 0, 0) in
+      match gstep s1 2 (snd e2) with
+      | None => []
+      | Some s2 =>
+          match trace_to_idle 100 s2 2 [e1; e2] with
+          | None => []
+          | Some (s3, tr) =>
+              let e3 := first_event s3 (3, OP_RETAIN, 0, 0) in
+              match gstep s3 3 (snd e3) with
+              | None => []
+              | Some s4 => match trace_to_idle 100 s4 1 (tr ++ [e3]) with Some (_, tr') => tr' | None => [] end
+              end
+          end
+      end
+  end.
 Example C17_nonvacuous :
   length demo_schedule = 53%nat /\
-  (exists s, grun init_state (firstn 38 demo_schedule) = Some s /\ reach s /\
+  (exists s, grunc init_state (firstn 38 demo_schedule) = Some s /\ reach s /\
      (* xref = -1, object alive with ref = 2: 4 notifications pending on a non-empty group, one other internal holder *)
      snap s = [-1; 2; 4; 1; 0; 0; 1; 0; 0; 0; 0; 0; 4]) /\
-  (exists s, grun init_state (firstn 48 demo_schedule) = Some s /\ reach s /\
+  (exists s, grunc init_state (firstn 48 demo_schedule) = Some s /\ reach s /\
      (* after the leave: the batch of 4 cost 2 references in all; all 4 queue references released; not disposed *)
      snap s = [-1; 0; 0; 0; 0; 0; 1; 0; 0; 0; 0; 0; 0]) /\
-  (exists s, grun init_state demo_schedule = Some s /\ reach s /\
+  (exists s, grunc init_state demo_schedule = Some s /\ reach s /\
      (* disposed once, finalizer once with context 77 on queue 5 *)
-     snap s = [-1; -1; 0; 0; 1; 0; 0; 1; 77; 5; 1; 0; 0]).
+     snap s = [-1; -1; 0; 0; 1; 0; 0; 1; 77; 5; 1; 0; 0]) /\
+  (exists s, grunc init_state (firstn 14 shared_schedule) = Some s /\ reach s /\
+     (* ONE external reference (xref = 0, still in the pool); threads 1 and 3 are inside calls through it at the same time and
+        thread 2 has performed a whole dispatch_group_notify_f through it meanwhile *)
+     [regs s XREF; regs s XPOOL; priv s KBX; priv s KX; regs s NLEN] = [0; 1; 2; 0; 0] /\
+     pcs s 1 = PEnter BX /\ pcs s 2 = PIdle /\ pcs s 3 = PRetain).
 Proof.
   split; [vm_compute; reflexivity|].
-  assert (H1 : option_map snap (grun init_state (firstn 38 demo_schedule)) = Some [-1; 2; 4; 1; 0; 0; 1; 0; 0; 0; 0; 0; 4])
+  assert (H1 : option_map snap (grunc init_state (firstn 38 demo_schedule)) = Some [-1; 2; 4; 1; 0; 0; 1; 0; 0; 0; 0; 0; 4])
     by (vm_compute; reflexivity).
-  assert (H2 : option_map snap (grun init_state (firstn 48 demo_schedule)) = Some [-1; 0; 0; 0; 0; 0; 1; 0; 0; 0; 0; 0; 0])
+  assert (H2 : option_map snap (grunc init_state (firstn 48 demo_schedule)) = Some [-1; 0; 0; 0; 0; 0; 1; 0; 0; 0; 0; 0; 0])
     by (vm_compute; reflexivity).
-  assert (H3 : option_map snap (grun init_state demo_schedule) = Some [-1; -1; 0; 0; 1; 0; 0; 1; 77; 5; 1; 0; 0])
+  assert (H3 : option_map snap (grunc init_state demo_schedule) = Some [-1; -1; 0; 0; 1; 0; 0; 1; 77; 5; 1; 0; 0])
     by (vm_compute; reflexivity).
-  split; [|split].
-  - destruct (grun init_state (firstn 38 demo_schedule)) as [s|] eqn:E; [|discriminate H1]. exists s.
+  assert (H4 : option_map (fun s => ([regs s XREF; regs s XPOOL; priv s KBX; priv s KX; regs s NLEN], (pcs s 1, pcs s 2, pcs s 3)))
+                 (grunc init_state (firstn 14 shared_schedule)) = Some ([0; 1; 2; 0; 0], (PEnter BX, PIdle, PRetain)))
+    by (vm_compute; reflexivity).
+  split; [|split; [|split]].
+  - destruct (grunc init_state (firstn 38 demo_schedule)) as [s|] eqn:E; [|discriminate H1]. exists s.
     split; [reflexivity|]. split; [eapply grun_reach; [apply reach_init; reflexivity|exact E]|].
     exact (f_equal (fun o => match o with Some l => l | None => [] end) H1).
-  - destruct (grun init_state (firstn 48 demo_schedule)) as [s|] eqn:E; [|discriminate H2]. exists s.
+  - destruct (grunc init_state (firstn 48 demo_schedule)) as [s|] eqn:E; [|discriminate H2]. exists s.
     split; [reflexivity|]. split; [eapply grun_reach; [apply reach_init; reflexivity|exact E]|].
     exact (f_equal (fun o => match o with Some l => l | None => [] end) H2).
-  - destruct (grun init_state demo_schedule) as [s|] eqn:E; [|discriminate H3]. exists s.
+  - destruct (grunc init_state demo_schedule) as [s|] eqn:E; [|discriminate H3]. exists s.
     split; [reflexivity|]. split; [eapply grun_reach; [apply reach_init; reflexivity|exact E]|].
     exact (f_equal (fun o => match o with Some l => l | None => [] end) H3).
+  - destruct (grunc init_state (firstn 14 shared_schedule)) as [s|] eqn:E; [|discriminate H4]. exists s.
+    split; [reflexivity|]. split; [eapply grun_reach; [apply reach_init; reflexivity|exact E]|].
+    pose proof (f_equal (fun o => match o with Some x => x | None => ([], (PIdle, PIdle, PIdle)) end) H4) as H5.
+    cbn [option_map] in H5. split; [exact (f_equal fst H5)|].
+    split; [exact (f_equal (fun x => fst (fst (snd x))) H5)|].
+    split; [exact (f_equal (fun x => snd (fst (snd x))) H5)|exact (f_equal (fun x => snd (snd x)) H5)].
 Qed.
+
+(* the crash outcomes are MODELLED, not disabled: outside the contract the model crashes as C does.  Here the only
+   reference is released and the dispose reads a dg_state whose low word has only HAS_WAITERS set (contract part 3
+   violated): the step exists, leads to PCrash and sets CRASH *)
+Example C17_crash_modelled_outside_contract :
+  let tr := match sched_of init_state [(1, OP_RELEASE, 0, 0)] with Some tr => firstn 5 tr | None => [] end in
+  let e := ev0 DV_LOAD MO_RELAXED OBJ_G OFF_STATE 8 1 1 1 in
+  match grunc init_state tr with
+  | Some s => pcs s 1 = PDispose (KApi BN) /\ contractb s 1 e = false /\
+              match gstep s 1 e with Some s' => pcs s' 1 = PCrash /\ regs s' CRASH = 1 | None => False end
+  | None => False
+  end.
+Proof. vm_compute. repeat split. Qed.
